@@ -123,7 +123,7 @@ func IDs() []string {
 	return out
 }
 
-var allShapes = []string{"doc", "flat", "flatb", "kv", "nested", "nestedb", "person", "rep3"}
+var allShapes = []string{"doc", "flat", "flatb", "kv", "nested", "nestedb", "pair", "person", "rep3"}
 
 // c13Shapes: all shapes; flat/flatb and nested/nestedb are twins (same column names, different physical types).
 var c13Shapes = []string{"doc", "flat", "flatb", "kv", "nested", "nestedb", "person", "rep3"}
